@@ -3,7 +3,7 @@
 Reference model: the observation tuple (qv.obs.obs).  Enumerated: all
 present/absent patterns of Time over boundary value sets (all pairs), full-range
 single-field sweeps, all Interval pairs over a Time set incl. open ends, all
-Duration amounts x units x spans (all pairs), every gold string of the dataset."""
+Duration amounts x units x spans (all pairs), every gold string of the dataset; every candidate the parser produces for the corpus and grammar sentences (latent on/off)."""
 import itertools
 import json
 import os
@@ -13,11 +13,12 @@ from ..common import viol
 from .. import runner
 
 PID = "C18"
+ON_LIBRARY_RAISE = "skip"  # a raising parse is C01's finding
 LEVEL = "exploration"
 RULE = (
     "All-pairs enumeration: for every ordered pair (a, b) of the enumerated value objects, a == b must equal "
     "(type(a) is type(b) and obs(a) == obs(b)) and equal objects must have equal hashes; per object nb_str -> parse_nb_string "
-    "round-trips and nb_str is injective on obs.  One evaluation = one row (object a against every b of its family). "
+    "round-trips and nb_str is injective on obs; every candidate value produced by the parser for the bundled corpus + grammar sentences must equal, and hash like, its hand-built twin and its parse_nb_string(nb_str()) image.  One evaluation = one row (object a against every b of its family). "
     "A row is non-trivial when it contains at least one equal pair at different spans AND at least one unequal pair; "
     "rows are distinct objects by construction."
 )
@@ -148,13 +149,42 @@ def plan(tier, seed):
             yield ("cross", tier, name, 0)
         for k in range(_n_gold()):
             yield ("gold", tier, "dataset", k)
+        # values as the parser itself produces them (all candidates, latent on and off): a value that went through rules,
+        # span updates and latent anchoring must compare and hash like a hand-built one
+        for k in range(len(_sentences())):
+            yield ("parsed", tier, "sentences", k)
 
     space = {"objects_" + k.replace(":", "_"): len(v) for k, v in fam.items() if not k.startswith("sweep")}
     space["sweep_families"] = sum(1 for k in fam if k.startswith("sweep"))
     space["sweep_objects"] = sum(len(v) for k, v in fam.items() if k.startswith("sweep"))
     space["pairs"] = sum(len(v) ** 2 for v in fam.values())
     space["dataset_gold_strings"] = _n_gold()
+    space["parsed_sentences"] = len(_sentences())
     return {"space": space, "cases": gen(), "chunk": 16}
+
+
+_sent = None
+
+
+def _sentences():
+    global _sent
+    if _sent is None:
+        from .. import alphabet, grammar
+
+        _sent = [(t, ts + ":00") for t, ts in alphabet.corpus_sentences()] + [(s_, "2018-03-07T12:43:00") for _, s_ in grammar.sentences()]
+    return _sent
+
+
+def _rebuild(o):
+    """hand-built twin of an observation"""
+    Time, Interval, Duration, DurationUnit, pod_hours, _ = _types()
+    if o is None:
+        return None
+    if o[0] == "T":
+        return Time(year=o[1], month=o[2], day=o[3], hour=o[4], minute=o[5], DOW=o[6], POD=o[7])
+    if o[0] == "I":
+        return Interval(_rebuild(o[1]), _rebuild(o[2]))
+    return Duration(o[1], DurationUnit(o[2]))
 
 
 _gold = None
@@ -190,6 +220,33 @@ def run_case(case):
         if not (a == b):
             v.append(viol({"kind": "gold_eq", "type": type(a).__name__}, "gold {!r}: parse(nb_str(x)) != x".format(s)))
         return {"o": "gold:" + type(a).__name__, "nt": True, "v": v, "st": {"pairs": 1}}
+    if kind == "parsed":
+        from ..common import stream
+
+        text, ts = _sentences()[i]
+        n = 0
+        for latent in (True, False):
+            for c in stream(text, ts, latent_time=latent):
+                if c is None:
+                    continue
+                r = c.resolution
+                n += 1
+                o = obs(r)
+                twins = [("hand-built twin", _rebuild(o))]
+                try:
+                    twins.append(("parse_nb_string(nb_str())", parse_nb_string(r.nb_str())))
+                except Exception as e:
+                    v.append(viol({"kind": "roundtrip_raises", "type": type(r).__name__, "exc": type(e).__name__, "source": "parser"}, "nb_str/parse_nb_string raised {!r} for candidate {!r} of {!r}".format(e, r, text)))
+                for label, t in twins:
+                    if obs(t) != o:
+                        v.append(viol({"kind": "roundtrip", "type": type(r).__name__, "source": "parser"}, "candidate {!r} of {!r}: {} denotes {}".format(r, text, label, obs(t))))
+                    elif not (r == t) or not (t == r):
+                        v.append(viol({"kind": "eq_false_negative", "type": type(r).__name__, "source": "parser"}, "candidate {!r} of {!r} (latent={}) != its {} {!r}".format(r, text, latent, label, t)))
+                    elif hash(r) != hash(t):
+                        v.append(viol({"kind": "hash", "type": type(r).__name__, "source": "parser"}, "candidate {!r} of {!r} (latent={}) equals its {} but hashes differently".format(r, text, latent, label)))
+                if len(v) > 3:
+                    break
+        return {"o": "parsed:" + ("ok" if not v else "bad"), "nt": n > 0, "v": v[:3], "st": {"parser_values": n}}
     if kind == "cross":
         a = fam[name][0]
         n = 0
